@@ -8,7 +8,7 @@ import random
 from typing import Optional
 
 from vk.prelude import THOROUGH, h, tick, tiered, concrete_arrays, notrace, sym_true
-from whoosh import fields, query, writing, analysis
+from whoosh import fields, query, writing, analysis, columns
 from whoosh.filedb.filestore import RamStorage
 from whoosh.codec.whoosh3 import W3Codec
 
@@ -17,26 +17,35 @@ concrete_arrays()
 
 def schema():
     ana = analysis.StandardAnalyzer(stoplist=None, minsize=1)
-    return fields.Schema(
+    sch = fields.Schema(
         k=fields.ID(stored=True, unique=True),
         t=fields.TEXT(analyzer=ana, phrase=True, chars=True, vector=True, stored=True),
         g=fields.KEYWORD(stored=True, scorable=True, lowercase=True),
         n=fields.NUMERIC(int, bits=16, signed=True, sortable=True, stored=True),
         kind=fields.ID(stored=True),
         s=fields.STORED)
+    # a dynamic (glob) field that is indexed and scorable but not stored: only its postings and lengths carry it through a merge
+    sch.add("*_dyn", fields.TEXT(analyzer=ana, phrase=False), glob=True)
+    # a column-only field: neither indexed nor stored, it exists only in its column file
+    sch.add("cc", fields.COLUMN(columns.NumericColumn("i", default=-1)))
+    return sch
 
 
 # (op, payload)
 OPS = [
-    ("add", dict(k=u"d1", t=u"alfa bravo charlie alfa", g=u"red blue", n=-3, kind=u"doc", s=[1, 2])),
+    ("add", dict(k=u"d1", t=u"alfa bravo charlie alfa", g=u"red blue", n=-3, kind=u"doc", s=[1, 2], x_dyn=u"zulu yankee zulu", cc=41)),
     ("group", [dict(k=u"p1", t=u"parent alfa", g=u"red", n=10, kind=u"parent"),
-               dict(k=u"c1", t=u"child bravo bravo", g=u"blue", n=11, kind=u"child"),
+               dict(k=u"c1", t=u"child bravo bravo", g=u"blue", n=11, kind=u"child", x_dyn=u"yankee", cc=42),
                dict(k=u"c2", t=u"child charlie", g=u"green", n=12, kind=u"child")]),
     ("add", dict(k=u"d2", t=u"delta echo alfa", g=u"green", n=300, kind=u"doc", s={"x": 1})),
     ("delete", u"d1"),
-    ("update", dict(k=u"d2", t=u"delta foxtrot", g=u"red", n=301, kind=u"doc")),
-    ("add", dict(k=u"d3", t=u"bravo golf alfa alfa alfa", g=u"blue green", n=7, kind=u"doc")),
+    ("update", dict(k=u"d2", t=u"delta foxtrot", g=u"red", n=301, kind=u"doc", cc=43)),
+    ("add", dict(k=u"d3", t=u"bravo golf alfa alfa alfa", g=u"blue green", n=7, kind=u"doc", x_dyn=u"zulu xray xray xray")),
 ]
+# a second group, issued after the forced commit so that it passes through the writer front-end under test (C18)
+OPS += [("group", [dict(k=u"p2", t=u"parent echo", g=u"red", n=20, kind=u"parent"),
+                   dict(k=u"c3", t=u"child bravo hotel", g=u"blue", n=21, kind=u"child", cc=44),
+                   dict(k=u"c4", t=u"child india", g=u"green", n=22, kind=u"child")])]
 if THOROUGH:
     OPS += [("add", dict(k=u"d4", t=u"hotel", g=u"", n=0, kind=u"doc")), ("delete", u"c2_absent")]
 NCUT = len(OPS) - 1
@@ -87,6 +96,11 @@ def apply_op(w, op):
         w.update_document(**payload)
 
 
+def _ranked(results):
+    """(key, score) best first; equal scores in key order (their relative order is the document order, which is layout dependent)"""
+    return tuple(sorted(((h_["k"], round(h_.score, 9)) for h_ in results), key=lambda x: (-x[1], x[0])))
+
+
 def full_dump(ix, with_stats):
     """Canonical logical content."""
     out = {}
@@ -97,7 +111,7 @@ def full_dump(ix, with_stats):
         for docnum in r.all_doc_ids():
             sf = r.stored_fields(docnum)
             order.append(sf["k"])
-            lens = tuple((f, r.doc_field_length(docnum, f)) for f in ("t", "g"))
+            lens = tuple((f, r.doc_field_length(docnum, f)) for f in ("t", "g", "x_dyn"))
             vec = None
             if r.has_vector(docnum, "t"):
                 vec = tuple((repr(t), tuple(v)) for t, v in r.vector_as("positions", docnum, "t"))
@@ -105,7 +119,7 @@ def full_dump(ix, with_stats):
         out["docs"] = tuple(sorted(docs))
         out["count"] = r.doc_count()
         lex = []
-        for fname in ("k", "t", "g", "kind"):
+        for fname in ("k", "t", "g", "kind", "x_dyn"):
             for text in r.lexicon(fname):
                 m = r.postings(fname, text)
                 ps = []
@@ -121,16 +135,21 @@ def full_dump(ix, with_stats):
         out["lexicon"] = tuple(lex)
         cr = r.column_reader("n")
         out["column n"] = tuple(sorted((r.stored_fields(d)["k"], cr[d]) for d in r.all_doc_ids()))
+        ccr = r.column_reader("cc")
+        out["column cc"] = tuple(sorted((r.stored_fields(d)["k"], ccr[d]) for d in r.all_doc_ids()))
         out["sorted by n"] = tuple(h_["k"] for h_ in s.search(query.Every(), sortedby="n", limit=None))
         out["num range"] = tuple(sorted(h_["k"] for h_ in s.search(query.NumericRange("n", 7, 300), limit=None)))
         out["phrase"] = tuple(sorted(h_["k"] for h_ in s.search(query.Phrase("t", [u"alfa", u"alfa"]), limit=None)))
         # grouped documents stay adjacent and in order
+        if all(x in order for x in (u"p2", u"c3", u"c4")):
+            i = order.index(u"p2")
+            out["group 2 adjacent"] = order[i:i + 3] == [u"p2", u"c3", u"c4"]
         if all(x in order for x in (u"p1", u"c1", u"c2")):
             i = order.index(u"p1")
             out["group adjacent"] = order[i:i + 3] == [u"p1", u"c1", u"c2"]
             from whoosh.query import NestedParent
             np = NestedParent(query.Term("kind", u"parent"), query.Term("t", u"bravo"))
-            out["nested parent"] = tuple(h_["k"] for h_ in s.search(np, limit=None))
+            out["nested parent"] = tuple(sorted(h_["k"] for h_ in s.search(np, limit=None)))
         if with_stats:
             out["doc_count_all"] = r.doc_count_all()
             st = []
@@ -139,7 +158,9 @@ def full_dump(ix, with_stats):
                 st.append((fname, text, ti.doc_frequency(), round(ti.weight(), 5), ti.min_length(), ti.max_length(), round(ti.max_weight(), 5)))
             out["term stats"] = tuple(st)
             out["field length t"] = r.field_length("t")
-            out["scores"] = tuple((h_["k"], round(h_.score, 9)) for h_ in s.search(query.Or([query.Term("t", u"alfa"), query.Term("t", u"bravo")]), limit=None))
+            out["field length x_dyn"] = (r.field_length("x_dyn"), r.min_field_length("x_dyn"), r.max_field_length("x_dyn"))
+            out["scores x_dyn"] = _ranked(s.search(query.Term("x_dyn", u"zulu"), limit=None))
+            out["scores"] = _ranked(s.search(query.Or([query.Term("t", u"alfa"), query.Term("t", u"bravo")]), limit=None))
     return out
 
 
